@@ -249,7 +249,13 @@ func runC05(c *Ctx) {
 		db := p.Method(core.PkgCh, "Client", "decodeBlock")
 		if db != nil {
 			as := false
-			for _, call := range core.Calls(db) {
+			var asFamily []ssa.CallInstruction
+			for _, f := range append([]*ssa.Function{db}, core.StaticReachList(db)...) {
+				if f != nil && pkgOf(f) != nil && pkgOf(f).Path() == core.PkgCh {
+					asFamily = append(asFamily, core.Calls(f)...)
+				}
+			}
+			for _, call := range asFamily {
 				if f := core.CalleeFunc(call); f != nil && f.Name() == "As" && len(call.Common().Args) == 2 {
 					if strings.Contains(call.Common().Args[1].Type().String(), "interface") {
 						as = true
@@ -324,14 +330,29 @@ func runC05(c *Ctx) {
 			}
 			return false
 		}
-		calls := core.FindCalls(rd, func(f *types.Func) bool { return core.IsMethod(f, core.PkgCompress, "Reader", "readBlock") })
+		isRB := func(f *types.Func) bool { return core.IsMethod(f, core.PkgCompress, "Reader", "readBlock") }
+		// the function that calls readBlock: Read itself, or a wrapper of it that Read calls
+		host := rd
+		calls := core.FindCalls(rd, isRB)
+		var siteInRead ssa.Instruction
+		if len(calls) == 1 {
+			siteInRead = calls[0].(ssa.Instruction)
+		} else if len(calls) == 0 {
+			for _, cc := range core.Calls(rd) {
+				if sf := core.StaticFn(cc); sf != nil && sf != rb && sf.Blocks != nil && pkgOf(sf) != nil && pkgOf(sf).Path() == core.PkgCompress {
+					if hc := core.FindCalls(sf, isRB); len(hc) == 1 {
+						host, calls, siteInRead = sf, hc, cc.(ssa.Instruction)
+					}
+				}
+			}
+		}
 		if len(calls) != 1 {
 			c.R.Unk(rule, core.FuncName(rd), cfg, p.Pos(rd.Pos()), sprintf("%d readBlock calls in Read", len(calls)))
 			return
 		}
 		call := calls[0]
 		ev := core.ErrValue(call)
-		al := core.Aliases(rd, ev)
+		al := core.Aliases(host, ev)
 		errEdge := func(b *ssa.BasicBlock, i int) bool {
 			if ifi, ok := b.Instrs[len(b.Instrs)-1].(*ssa.If); ok {
 				if ns, ok := core.NilTest(ifi, al); ok && ns == i {
@@ -403,7 +424,7 @@ func runC05(c *Ctx) {
 			}
 			return false, false
 		})
-		if len(refill) > 0 && core.OnlyViaEdges(rd, call.(ssa.Instruction), refill) {
+		if len(refill) > 0 && core.OnlyViaEdges(rd, siteInRead, refill) {
 			c.R.Ok(rule, core.FuncName(rd)+"/refill", cfg, p.Pos(call.Pos()), "readBlock only under pos >= len(data)")
 		} else {
 			c.R.Bad(rule, core.FuncName(rd)+"/refill", cfg, p.Pos(call.Pos()), "the next frame can be read while the current one still has unread bytes (or the test is not pos >= len(data)): bytes are dropped")
